@@ -67,6 +67,18 @@ Definition read_msg (s : bytes) : outcome (frame * bytes) :=
   | _ => Err
   end.
 
+(* the decision of readMsg as a function of the five header bytes and of how many bytes follow them on the
+   connection: (type, topic length, payload length) of the frame it returns.  FrameFacts.read_msg_decision_spec
+   proves it agrees with read_msg; the correspondence check uses it for frames too big to write down. *)
+Definition read_msg_decision (ty b0 b1 b2 b3 avail : N) : outcome (N * N * N) :=
+  let len := le32_val b0 b1 b2 b3 in
+  if max_buff_len <? len then Err
+  else
+    let tl := if has_topic ty then 32 else 0 in
+    if avail <? tl then Err
+    else if avail - tl <? len then Err
+    else Ok (ty, tl, len).
+
 (* the loop of handleConn over a whole byte stream: the frames handed on, and how the stream ended:
    Ok tt = end of stream exactly at a frame boundary, Err = readMsg failed inside a frame *)
 Fixpoint decode_fuel (fuel : nat) (s : bytes) : list frame * outcome unit :=
